@@ -12,6 +12,7 @@ type LexerReader struct {
 	ungetFlg bool
 	char     rune
 	history  []rune
+	eof      bool
 }
 
 func New(r bufio.Reader) LexerReader {
@@ -39,6 +40,7 @@ func (lr *LexerReader) Read() rune {
 
 	if lr.pos >= len(lr.runes) {
 		verifhook.EOFRead()
+		lr.eof = true
 		lr.char = 0
 		return 0
 	}
@@ -47,6 +49,12 @@ func (lr *LexerReader) Read() rune {
 	lr.pos++
 
 	return lr.char
+}
+
+// IsEOF reports whether the reader has been read past the end of the input
+// (the 0 it returned was the end marker, not a NUL rune of the input).
+func (lr *LexerReader) IsEOF() bool {
+	return lr.eof && len(lr.history) == 0
 }
 
 func (lr *LexerReader) AppendHistory(r rune) {
